@@ -17,6 +17,7 @@ func init() {
 }
 
 func checkC09(c *Ctx, r *Report) {
+	defer checkEngineMapsCloned(c, r, "C09.c")
 	defer checkContainerFields(c, r, "C09.c")
 	defer checkProcessWideState(c, r, "C09.c")
 	w := c.W
